@@ -111,6 +111,10 @@ type Op struct {
 	// AttrUpd (UpdateItem): the legacy AttributeUpdates parameter - attribute -> action (PUT / ADD / DELETE) and value
 	// (nil: none). Sent as given; the library documents legacy parameters as ignored.
 	AttrUpd map[string]AttrUpdate `json:"attrupd,omitempty"`
+	// ResendUnprocessed (BatchWriteItem): when the response lists unprocessed items, every failure condition is switched off
+	// and the UnprocessedItems map OF THE RESPONSE (the same object) is sent as the RequestItems of a second call - the retry
+	// loop of the SDK documentation; the outcome is the second call's
+	ResendUnprocessed bool `json:"resendunprocessed,omitempty"`
 	// SharePtrs (SDK v1): equal values of one request map are ONE *AttributeValue used at several places
 	SharePtrs bool `json:"shareptrs,omitempty"`
 	RetCap string `json:"retcap,omitempty"`
